@@ -1,8 +1,10 @@
 package main
 
 import (
-	"go/token"
 	"fmt"
+	"go/token"
+	"go/types"
+	"sort"
 	"strings"
 
 	"golang.org/x/tools/go/ssa"
@@ -261,6 +263,10 @@ func rulesC17(e *Engine, r *Report) {
 		r.Min("R17.6", "sources of the scan result", n, 2)
 	}
 
+	// ---------------------------------------------------------------- R17.8
+	r.Rule("R17.8", "each sender filters with its own list: a slice-typed field of an object the sender builds (the store's Include / Ignore) that is initialised with the configuration's own slice value is never appended to - neither in the wiring function nor in a method it calls on the object -, because inherited options share one backing array across sources; lists that grow (standard ignores, non-HTTP tag patterns) must start from a copy")
+	e.checkNoSharedAppend(r, "R17.8")
+
 	// ---------------------------------------------------------------- R17.7
 	r.Rule("R17.7", "the walk offers every entry: fileutil.walk lists a directory whenever the callback accepted it (nil) unless it was visited before (link loops); inside the listing loop the next entry is taken only after this one was offered to the callback, recursed into, or - when links are followed - could not be resolved; the loop is left early only with a non-nil answer that is not `SkipDir from a directory`; a callback error ends walk with nil only for `SkipDir from a directory`; Readdir asks for all entries (Readdir(-1)); Walk swallows only SkipDir")
 	if fn := needFn(e, r, "R17.7", "fileutil.walk"); fn != nil {
@@ -413,4 +419,69 @@ func rulesC17(e *Engine, r *Report) {
 			r.Min("R17.5", "re-queues in the retrier", n, 1)
 		}
 	}
+}
+
+// checkNoSharedAppend: a sender-private list that is appended to must not be
+// the configuration's own slice - sources that omit an option inherit the
+// SAME slice header (reflectutil.CopyStruct copies it), and append writes
+// into the spare capacity the parser's append left behind, i.e. into the
+// other sender's list (F14).  Shared by R17.8 and R19.7.
+func (e *Engine) checkNoSharedAppend(r *Report, rule string) {
+	n := 0
+	for _, fn := range e.FuncsIn("main") {
+		if fn.Parent() != nil {
+			continue
+		}
+		Instrs(fn, func(in ssa.Instruction) {
+			st, ok := in.(*ssa.Store)
+			if !ok {
+				return
+			}
+			fa, ok := st.Addr.(*ssa.FieldAddr)
+			if !ok {
+				return
+			}
+			f := fieldVar(fa.X, fa.Field)
+			if f == nil {
+				return
+			}
+			if _, isSlice := f.Type().Underlying().(*types.Slice); !isSlice {
+				return
+			}
+			val := e.Canon(st.Val)
+			if !strings.HasPrefix(val, "p0.conf.") || strings.ContainsAny(val, "([") {
+				return // not the configuration's own slice value
+			}
+			obj := strings.TrimLeft(e.Canon(fa.X), "&")
+			n++
+			// appends to that field: here, or in methods called on the object here
+			var where []string
+			for _, cf := range WithClosures(fn) {
+				for _, ap := range e.findInstrs(cf, "builtin(append)("+obj+"."+f.Name()+", §)", false) {
+					where = append(where, e.InstrPos(ap))
+				}
+				for _, pre := range []string{"^", "&", "^&"} {
+					for _, ap := range e.findInstrs(cf, "builtin(append)("+pre+obj+"."+f.Name()+", §)", false) {
+						where = append(where, e.InstrPos(ap))
+					}
+				}
+			}
+			for _, s := range e.SitesIn(fn) {
+				cal := s.Instr.Common().StaticCallee()
+				if cal == nil || len(cal.Blocks) == 0 || len(s.Instr.Common().Args) == 0 {
+					continue
+				}
+				if strings.TrimLeft(e.Canon(s.Instr.Common().Args[0]), "&") != obj {
+					continue
+				}
+				for _, ap := range e.findInstrs(cal, "builtin(append)(p0."+f.Name()+", §)", false) {
+					where = append(where, e.ShortName(cal)+" @"+e.InstrPos(ap))
+				}
+			}
+			sort.Strings(where)
+			r.Check(len(where) == 0, rule, fmt.Sprintf("%s: %s.%s shares the configuration's slice and is appended to", e.ShortName(fn), e.typeShort(fa.X.Type()), f.Name()), e.InstrPos(in),
+				"the list is the configuration's own slice ("+val+") - shared by every source that inherits the option - and is appended to at "+strings.Join(where, ", ")+": one sender's additions overwrite another's", 1+len(where), append([]string{val}, where...)...)
+		})
+	}
+	r.Min(rule, "per-sender slice fields initialised from the configuration's slices", n, 1)
 }
